@@ -23,9 +23,19 @@ props = sorted(p.name for p in (V / "seeded").iterdir() if p.is_dir() and (not a
 head = subprocess.check_output(["git", "-C", "/repo", "rev-parse", "--short", "HEAD"]).decode().strip()
 
 
-def run_check(prop, wt, tag):
+def scratch_copy(tag):
+    """a private copy of /verif (sources + Lean build output, ~300 MB) for runs against a scratch tree: the translators
+    of such a run rewrite lean/Midgard/Generated, which must not happen to the tree other work is building in"""
+    vc = Path(f"/tmp/vc-{tag.lower()}")
+    subprocess.check_call(["rsync", "-a", "--delete", "--exclude", ".git", "--exclude", "seeded", "--exclude", "evidence",
+                           "--exclude", ".lock-*", f"{V}/", f"{vc}/"])
+    return vc
+
+
+def run_check(prop, wt, tag, vc=None):
+    vc = vc or V
     env = {**os.environ, "MIDGARD_REPO": str(wt), "VERIF_EVIDENCE_DIR": f"/tmp/sr-evidence-{tag}"}
-    p = subprocess.run([str(V / "check"), prop], cwd=V, capture_output=True, text=True, env=env)
+    p = subprocess.run([str(vc / "check"), prop], cwd=vc, capture_output=True, text=True, env=env)
     lines = [l for l in p.stdout.splitlines() if l.startswith(("VIOLATION", "  what", "KNOWN-FINDING", "TOOL-FAILURE"))]
     return p.returncode, lines
 
@@ -35,8 +45,9 @@ def one_prop(prop):
     subprocess.run(["git", "-C", "/repo", "worktree", "remove", "--force", str(wt)], capture_output=True)
     subprocess.check_call(["git", "-C", "/repo", "worktree", "add", "--detach", str(wt), "HEAD", "-q"])
     out = {}
+    vc = scratch_copy(prop)
     try:
-        rc, lines = run_check(prop, wt, prop)
+        rc, lines = run_check(prop, wt, prop, vc)
         out["clean"] = {"exit": rc, "lines": lines[:4]}
         print(f"{prop} clean tree: exit {rc}", flush=True)
         for d in sorted((V / "seeded" / prop).iterdir()):
@@ -59,7 +70,7 @@ def one_prop(prop):
                 out[d.name] = {"status": "stale", "why": ap.stderr.strip()[:200]}
                 print(f"{prop}/{d.name}: stale (patch no longer applies)", flush=True)
                 continue
-            rc, lines = run_check(prop, wt, prop)
+            rc, lines = run_check(prop, wt, prop, vc)
             viol = [l for l in lines if l.startswith(f"VIOLATION property={prop}")]
             with_input = [l for l in viol if not l.rstrip().endswith("no-failing-input-found")]
             status = "caught" if rc == 1 and viol else "MISSED"
@@ -67,15 +78,13 @@ def one_prop(prop):
             print(f"{prop}/{d.name}: {status} (exit {rc}{', failing input' if with_input else ', no failing input'})", flush=True)
     finally:
         subprocess.run(["git", "-C", "/repo", "worktree", "remove", "--force", str(wt)], capture_output=True)
-        subprocess.run(["rm", "-rf", f"/tmp/sr-evidence-{prop}"])
+        subprocess.run(["rm", "-rf", f"/tmp/sr-evidence-{prop}", str(vc)])
     return prop, out
 
 
 with ThreadPoolExecutor(jobs) as ex:
     res = dict(ex.map(one_prop, props))
-# the translators wrote the scratch trees' tables into lean/Midgard/Generated: put back what /repo says
-subprocess.run(["/venv/bin/python", str(V / "tools" / "setup.py"), "--translate-only"], capture_output=True,
-               env={k: v for k, v in os.environ.items() if k != "MIDGARD_REPO"})
+# (the runs used private copies of /verif, so lean/Midgard/Generated here still says what /repo says)
 path = V / "seeded" / "REGRESSION.json"
 old = json.loads(path.read_text()) if path.exists() else {}
 old.update({p: {"repo_head": head, **r} for p, r in res.items()})
